@@ -175,7 +175,7 @@ def generate(ctx):
         ops = [_rand_op(rng, n) for _ in range(T)]
         yield {"kind": "history", "N": n, "shape": list(shape), "storage": rng.choice(["buffer", "param", "none"]),
                "dtype": dtype, "ptr": rng.randrange(n), "fresh_each": False, "ops": ops,
-               "vseed": rng.randrange(1 << 30)}
+               "vseed": rng.randrange(1 << 30), "restrided": rng.random() < 0.5}
 
 
 # ------------------------------------------------------------------------------------------
@@ -417,6 +417,14 @@ def _setup(ctx, desc, ids):
     if desc["ptr"]:
         rt.incr(desc["ptr"])
         model.incr(desc["ptr"])
+    if desc.get("restrided") and len(shape) >= 2 and rt.value is not None:
+        # the same contents handed back through the documented value setter in another memory layout (a view whose observation
+        # dimensions cannot be merged into one stride): in-place and out-of-place operations see the same record
+        v = rt.value
+        nc = v.detach().transpose(-1, -2).contiguous().transpose(-1, -2)
+        rt.value = torch.nn.Parameter(nc, requires_grad=v.requires_grad) if isinstance(v, torch.nn.Parameter) else nc
+        if not rt.value.is_contiguous():
+            ctx.count("records_given_non_contiguous_storage")
     return owner, rt, model, storage_dtype
 
 
